@@ -28,6 +28,6 @@ for i in range(1, 21):
         continue
     cov = e.get("coverage", e)
     print("| %s | %s | %s | %s | %s | %s | %s | %s |" % (
-        pid, e.get("tier"), e.get("seed"), len(cov.get("axioms_per_theorem", {})) or cov.get("obligations", ""),
+        pid, e.get("tier"), e.get("seed"), len(cov.get("theorems", [])) or cov.get("obligations", ""),
         cov.get("evaluations", e.get("evaluations")), cov.get("distinct_nontrivial", e.get("distinct_nontrivial")),
         e.get("wall_s"), e.get("violations")))
